@@ -452,6 +452,31 @@ def individual(mod):
     return out
 
 
+def ordering(mod):
+    """Individual's ordering: @total_ordering over __lt__ = problem.worse_than(fitnesses) and __eq__ = problem.equivalent(fitnesses);
+    python derives  a > b  as  not (a < b) and not (a == b)."""
+    cls = [n for n in mod.body if isinstance(n, ast.ClassDef) and n.name == "Individual"]
+    if not cls or [dotted(d) for d in cls[0].decorator_list] not in (["total_ordering"], ["functools.total_ordering"]):
+        raise Unsupported(f"{INDIVIDUAL}: Individual is not decorated with functools.total_ordering alone")
+    defined = {n.name for n in cls[0].body if isinstance(n, ast.FunctionDef)}
+    extra = defined & {"__gt__", "__ge__", "__le__", "__ne__", "__hash__", "__cmp__"}
+    if extra:
+        raise Unsupported(f"{INDIVIDUAL}: Individual defines {sorted(extra)} itself (the model derives them from __lt__ and __eq__)")
+    outs = []
+    for name, meth, coq in (("__lt__", "worse_than", "FunctionProblem_worse_than mx a b"), ("__eq__", "equivalent", "Problem_equivalent a b")):
+        fn = find_def(mod, name, "Individual")
+        argn = [a.arg for a in fn.args.args]
+        body = [s_ for s_ in fn.body if not (isinstance(s_, ast.Expr) and isinstance(s_.value, ast.Constant))]
+        on = argn[1] if len(argn) == 2 else "?"
+        ok = len(body) == 2 and isinstance(body[0], ast.If) and not body[0].orelse and ast.unparse(body[0].test) == f"{on} is None" and len(body[0].body) == 1 \
+            and ast.unparse(body[0].body[0]) == "return False" and ast.unparse(body[1]) == f"return self.problem.{meth}(self.fitness, {on}.fitness)"
+        if not ok:
+            raise Unsupported(f"{INDIVIDUAL}:{fn.lineno}: Individual.{name} is not `if other is None: return False`; `return self.problem.{meth}(self.fitness, other.fitness)`")
+        outs.append(f"Definition gen_ind{name.strip('_')[:2] and '_' + name.strip('_')} (mx : bool) (a b : F) : bool := {coq}.\n")
+    outs.append("Definition gen_ind_gt (mx : bool) (a b : F) : bool := negb (gen_ind_lt mx a b) && negb (gen_ind_eq mx a b).   (* functools.total_ordering *)\n")
+    return outs
+
+
 # ---------------------------------------------------------------------------------------------------- init_from_config / DemeTree.__init__
 def init_from_config(imod, amod):
     fn = find_def(imod, "init_from_config")
@@ -518,7 +543,8 @@ def translate(repo):
     out = ["(* GENERATED from pyhms/demes/*.py, pyhms/core/individual.py, pyhms/demes/initialize.py and pyhms/tree.py by hv/translate/ctor_py.py — do not edit *)",
            "From Coq Require Import List Bool Arith.", "From HV Require Import Tree Ctor.", "Import ListNotations.", ""]
     fns = []
-    out += individual(ast.parse(open(f"{repo}/{INDIVIDUAL}").read()))
+    imod_ = ast.parse(open(f"{repo}/{INDIVIDUAL}").read())
+    out += individual(imod_)
     fns += [f"{INDIVIDUAL}:Individual.{m}" for m in ("__init__", "evaluate", "evaluate_population", "create_population")]
     amod = ast.parse(open(f"{repo}/{ABSTRACT}").read())
     params, body = ctor(amod, "AbstractDeme", ABSTRACT)
@@ -542,3 +568,18 @@ def translate(repo):
     out.append(tree_init(ast.parse(open(f"{repo}/{TREE}").read())))
     fns.append(f"{TREE}:DemeTree.__init__")
     return {"GenCtor.v": "\n".join(out)}, fns
+
+
+class _Order:
+    """front end `order`: Individual.__lt__ / __eq__ under functools.total_ordering -> Gen/GenOrder.v"""
+    OUTPUTS = ["GenOrder.v"]
+
+    @staticmethod
+    def translate(repo):
+        out = ["(* GENERATED from pyhms/core/individual.py by hv/translate/ctor_py.py (front end `order`) — do not edit *)",
+               "From Coq Require Import Bool.", "From HV Require Import F64 WMonad GenProblem.", ""]
+        out += ordering(ast.parse(open(f"{repo}/{INDIVIDUAL}").read()))
+        return {"GenOrder.v": "\n".join(out)}, [f"{INDIVIDUAL}:Individual.__lt__", f"{INDIVIDUAL}:Individual.__eq__", f"{INDIVIDUAL}:@total_ordering"]
+
+
+ORDER = _Order()
